@@ -59,6 +59,14 @@ func toInt(x interface{}) int {
 
 type json_number string
 
+func intsOf(a A) A {
+	out := make(A, len(a))
+	for i, x := range a {
+		out[i] = toInt(x)
+	}
+	return out
+}
+
 func arr(x interface{}) A {
 	if x == nil {
 		return A{}
@@ -150,6 +158,9 @@ func numFromJ(j J) float64 {
 		}
 		if boolv(j["neg"]) {
 			f = -f
+		}
+		if back := numJ(f); back["k"] != "big" || fmt.Sprint(back["r"]) != fmt.Sprint(arr(j["r"])) && fmt.Sprint(back["r"]) != fmt.Sprint(intsOf(arr(j["r"]))) {
+			panic(fmt.Sprintf("big number record %v: canonical rendering is %v", j, back["r"]))
 		}
 		return f
 	case "inf":
@@ -295,7 +306,7 @@ func valJd(v *val.Val, depth int) J {
 	if v == nil {
 		return J{"k": "nil"}
 	}
-	if depth > 64 {
+	if depth > 300 {
 		return J{"k": "too-deep"}
 	}
 	if v.Type == nil {
@@ -310,7 +321,10 @@ func valJd(v *val.Val, depth int) J {
 		return J{"k": "bool", "v": v.Bool().V}
 	case types.KTime:
 		t := v.Time().V
-		return J{"k": "time", "v": int(t.Unix()), "ns": t.Nanosecond(), "txt": cps(t.String())}
+		if t.Nanosecond() == 0 && t.Location() == time.Local {
+			return J{"k": "time", "v": int(t.Unix())}
+		}
+		return J{"k": "time", "v": int(t.Unix()), "ns": t.Nanosecond(), "zone": cps(t.Location().String())}
 	case types.KList:
 		els := A{}
 		for _, e := range v.List().V {
@@ -394,6 +408,8 @@ func valFromJ(j J) *val.Val {
 			o.V[i] = valFromJ(obj(e))
 		}
 		return o.Vl()
+	case "fun":
+		return funValues[j["fid"].(string)]()
 	case "maybe":
 		ty := typeFromJ(obj(j["ty"]))
 		if !boolv(j["some"]) {
